@@ -458,6 +458,10 @@ func runOffer2(o *Out, r *rand.Rand, thorough bool, _ []string) {
 			if r.Intn(3) == 0 {
 				nItems = nKeys
 			}
+			if c%5 == 4 {
+				// the most keys an offer may name, all accepted, and a stream with as many / more / far more items
+				nKeys, nItems = 64, []int{64, 65, 71, 128, 63}[(c/5)%5]
+			}
 			var keys, items [][]byte
 			for k := 0; k < nKeys; k++ {
 				keys = append(keys, []byte{byte(k), byte(c)})
